@@ -52,16 +52,20 @@ def parse_path(ps):
 # =================================================================================== C08
 def run_C08():
     for it in range(N):
-        text, meta = gen_doc(R, scoped=R.random() < 0.5, attrpath_nested=R.random() < 0.5)
+        text, meta = gen_doc(R, scoped=R.random() < 0.5, attrpath_nested=R.random() < 0.5, inherits=0.35)
         ops = []
         src = parse(text); cur = text; trace = []
         for step in range(R.randint(2, 6)):
             op, kind = gen_op(cur, step, WRAPPERS[meta['shape']][2])
+            if meta.get('inherited') and R.random() < 0.3:         # a path that runs through an inherited name: a non-set on the path, must be refused
+                op, kind = (R.choice([('set', '%s.sub%d' % (R.choice(meta['inherited']), step), '1'), ('rm', '%s.sub%d' % (R.choice(meta['inherited']), step)), ('set', '%s.a.b' % R.choice(meta['inherited']), '{ }')]), 'through_inherited')
             before_text = src.rebuild(); before_snap = snapshot(src)
             res = apply(src, op)
             count('%s/%s/%s' % (op[0], kind, res[0] if res[0] == 'ok' else res[1]))
             ops.append(op); trace.append(res)
-            if res[0] == 'ok': cur = res[1]; continue
+            if res[0] == 'ok':
+                if kind == 'through_inherited': bad('an edit whose path runs through an inherited (non-set) name is accepted instead of refused', doc=text, ops=ops[:], out=res[1]); break
+                cur = res[1]; continue
             case = dict(doc=text, ops=ops[:], failing=op, error=res[1:])
             if res[1] not in ('KeyError', 'ValueError'):
                 if res[1] == 'ResolutionError': known['F-08'] = known.get('F-08', 0) + 1
